@@ -26,7 +26,6 @@ import (
 	"os/exec"
 	"runtime"
 	"strconv"
-	"strings"
 	"sync"
 	"sync/atomic"
 	"time"
@@ -587,15 +586,15 @@ func activeElems(ev []pair) (ok bool, active uint64) {
 	return ok, active
 }
 
-func withElements(s reactive.ReadableSet[int], cm uint64, rec func(pair)) func() {
-	setup := func(e int) func() {
+func withElements[E elem](s reactive.ReadableSet[E], cm uint64, rec func(pair)) func() {
+	setup := func(e E) func() {
 		rec(pair{tagSetup, 1 << uint(e)})
 		return func() { rec(pair{tagTeardown, 1 << uint(e)}) }
 	}
 	if cm == 1<<universe-1 {
 		return s.WithElements(setup)
 	}
-	return s.WithElements(setup, func(e int) bool { return cm&(1<<uint(e)) != 0 })
+	return s.WithElements(setup, func(e E) bool { return cm&(1<<uint(e)) != 0 })
 }
 
 func emitSetApi(cf *vx.CasesFile, st *vx.Stats, s0 uint64, ops []op, ncb int, tag string) {
@@ -609,26 +608,39 @@ func emitSetApi(cf *vx.CasesFile, st *vx.Stats, s0 uint64, ops []op, ncb int, ta
 		views[i] = "SwPlain"
 	}
 	var rets []pair
-	s := reactive.NewSet[int](elemsOf(s0)...)
+	var fails []string
+	var coqOps []string
+	s := reactive.NewSet[uint64](elemsOfE[uint64](s0)...) // uint64 elements: Decode needs an element type serix can encode
 	for _, x := range ops {
 		switch x.K {
 		case "sub":
 			c := x.C
 			views[c], vop[c] = x.coqSView(), x
 			if x.V == "withel" {
-				unsubs[c] = withElements(s, x.CA, func(d pair) { raw[c] = append(raw[c], d) })
+				unsubs[c] = withElements[uint64](s, x.CA, func(d pair) { raw[c] = append(raw[c], d) })
 			} else {
-				unsubs[c] = s.OnUpdate(func(m ds.SetMutations[int]) { raw[c] = append(raw[c], mutPair(m)) }, x.Trig)
+				unsubs[c] = s.OnUpdate(func(m ds.SetMutations[uint64]) { raw[c] = append(raw[c], mutPairE(m)) }, x.Trig)
 			}
 		case "unsub":
 			unsubs[x.C]()
 			unsubd[x.C] = true
+		case "decode": // a writer: AddAll(decoded elements); the applied mutation is not returned (sequential: known)
+			before := maskOfE[uint64](s)
+			if why := decodeInto(s, x.A); why != "" {
+				fails = append(fails, why)
+			}
+			rets = append(rets, pair{x.A &^ before, 0})
+		case "decodebad":
+			if why := decodeBad(s, x.A); why != "" {
+				fails = append(fails, why)
+			}
+			continue // not an operation of the model: nothing happens
 		default:
-			rets = append(rets, doSetWrite(s, x))
+			rets = append(rets, doSetWriteE(s, x))
 		}
+		coqOps = append(coqOps, x.coqS())
 	}
-	final := maskOf(s)
-	var fails []string
+	final := maskOfE[uint64](s)
 	for c := range raw {
 		if vop[c].V == "withel" {
 			obs[c] = mergeEv(raw[c])
@@ -654,7 +666,7 @@ func emitSetApi(cf *vx.CasesFile, st *vx.Stats, s0 uint64, ops []op, ncb int, ta
 			}
 		}
 	}
-	cf.Add(fmt.Sprintf("SApi %s %s %s %s %s %s", vx.N(s0), vx.ListOf(ops, op.coqS), vx.List(views),
+	cf.Add(fmt.Sprintf("SApi %s %s %s %s %s %s", vx.N(s0), vx.List(coqOps), vx.List(views),
 		vx.ListOf(obs, coqPairs), coqPairs(rets), vx.N(final)))
 	nontrivial := false
 	for _, x := range ops {
@@ -677,7 +689,17 @@ func emitSetApi(cf *vx.CasesFile, st *vx.Stats, s0 uint64, ops []op, ncb int, ta
 }
 
 func genApiSetScript(r *vx.Rng, n int) (ops []op, ncb int) {
-	ops, ncb = genScript(r, n, func() op { return genSetWrite(r) })
+	ops, ncb = genScript(r, n, func() op {
+		switch r.Intn(8) {
+		case 0:
+			return op{K: "decode", A: r.U64() & (1<<universe - 1) & r.U64()} // Decode on a (usually live) set
+		case 1:
+			if r.Chance(1, 3) {
+				return op{K: "decodebad", A: r.U64() & (1<<universe - 1)}
+			}
+		}
+		return genSetWrite(r)
+	})
 	for i := range ops {
 		if ops[i].K == "sub" && r.Chance(2, 3) {
 			ops[i].V, ops[i].Trig = "withel", false
@@ -690,49 +712,40 @@ func genApiSetScript(r *vx.Rng, n int) (ops []op, ncb int) {
 	return ops, ncb
 }
 
-// sigDecode: reactive Set.Decode (set_impl.go:108) inserts the decoded elements under the value mutex without going
-// through the write path: a subscriber of a live set is not told (KNOWN_FINDINGS.txt).
-const sigDecode = "reactive-set-decode-silent"
+var serixAPI = serix.NewAPI()
 
-// directedDecode: {0,1} with a folding subscriber; Decode(encoding of {1,2}); contents become {0,1,2}.
-func directedDecode(st *vx.Stats) {
-	api := serix.NewAPI()
-	enc, err := ds.NewSet[uint64](1, 2).Encode(api)
+// decodeInto: s.Decode(encoding of the elements in mask); "" when the bytesRead / err contract holds.
+func decodeInto[E elem](s reactive.Set[E], mask uint64) string {
+	enc, err := setOfE[E](mask).Encode(serixAPI)
 	if err != nil {
-		st.Count("aseq-set:decode-skipped(encode failed)")
-		return
+		return fmt.Sprintf("Encode of the set with mask %d failed: %v", mask, err)
 	}
-	live := reactive.NewSet[uint64](0, 1)
-	mask := func(s ds.ReadableSet[uint64]) (m uint64) {
-		s.Range(func(e uint64) { m |= 1 << e })
-		return m
+	if n, err := s.Decode(serixAPI, enc); err != nil || n != len(enc) {
+		return fmt.Sprintf("Decode(encoding of mask %d, %d bytes) returned (%d, %v)", mask, len(enc), n, err)
 	}
-	var folded uint64
-	var log []pair
-	live.OnUpdate(func(m ds.SetMutations[uint64]) {
-		d := pair{mask(m.AddedElements()), mask(m.DeletedElements())}
-		log = append(log, d)
-		folded = (folded | d[0]) &^ d[1]
-	})
-	if _, err = live.Decode(api, enc); err != nil {
-		st.Count("aseq-set:decode-skipped(decode failed)")
-		return
-	}
-	st.Count("aseq-set:decode")
-	switch final := mask(live); {
-	case final != 7:
-		st.Fail(map[string]any{"sig": "", "kind": "Set.Decode", "why": fmt.Sprintf("{0,1}.Decode(enc{1,2}) left contents mask %d", final)})
-	case folded != final:
-		st.Known = append(st.Known, sigDecode)
-		st.Count("aseq-set:decode-silent(known finding)")
-	}
+	return ""
 }
 
-// sigWelRace: the teardown function returned by Set.WithElements (set_impl.go:251-257) ranges over and deletes from an
-// unprotected map: two goroutines calling it at the same time (two racing unsubscribers of one subscription, which
-// OnUpdate's unsubscribe tolerates) kill the process with "fatal error: concurrent map writes".
-const sigWelRace = "reactive-withelements-teardown-race"
+// decodeBad: Decode of a truncated encoding must fail and change nothing.
+func decodeBad[E elem](s reactive.Set[E], mask uint64) string {
+	enc, err := setOfE[E](mask | 1).Encode(serixAPI)
+	if err != nil || len(enc) < 2 {
+		return fmt.Sprintf("Encode failed: %v", err)
+	}
+	before := maskOfE[E](s)
+	if _, err := s.Decode(serixAPI, enc[:len(enc)-1]); err == nil {
+		return "Decode of a truncated encoding returned no error"
+	}
+	if after := maskOfE[E](s); after != before {
+		return fmt.Sprintf("a failed Decode changed the contents from %d to %d", before, after)
+	}
+	return ""
+}
 
+// The teardown function returned by Set.WithElements keeps the per-element teardown functions in an unprotected map:
+// before fix 3c10e7a two goroutines calling it at the same time (two racing unsubscribers of one subscription, which
+// OnUpdate's unsubscribe tolerates) killed the process with "fatal error: concurrent map writes" or called a nil
+// function.  Regression: run in a child process, a crash there is a failure with this input.
 // welRaceChild runs in a child process (the fatal error cannot be recovered): NewSet(0..5).WithElements(setup), then
 // the teardown from three goroutines at once, up to 3000 times.
 func welRaceChild() {
@@ -757,18 +770,16 @@ func directedWelRace(st *vx.Stats) {
 	switch {
 	case err == nil:
 		st.Count("aseq-set:withelements-double-teardown-survived")
-	case strings.Contains(string(out), "concurrent map"), strings.Contains(string(out), "WithElements.func"):
-		// the data race shows as "concurrent map writes / iteration and map write" or as a nil teardown function being called
-		st.Known = append(st.Known, sigWelRace)
-		st.Count("aseq-set:withelements-double-teardown-crash(known finding)")
 	default:
-		st.Fail(map[string]any{"sig": "", "kind": "Set.WithElements teardown called by two goroutines", "why": fmt.Sprintf("child process: %v: %.300s", err, out)})
+		st.Fail(map[string]any{"sig": "", "kind": "Set.WithElements: s=NewSet(0..5); td=s.WithElements(setup); three goroutines call td() at once",
+			"why": fmt.Sprintf("the process died: %v: %.400s", err, out)})
 	}
 }
 
 func directedApi(cf *vx.CasesFile, st *vx.Stats) {
-	directedDecode(st)
 	directedWelRace(st)
+	// Decode on a live set (regression for fix a05beeb): {0,1} with subscribers, Decode(enc{1,2}), a failing Decode, Decode(enc{})
+	emitSetApi(cf, st, 3, []op{{K: "sub", C: 0}, {K: "sub", C: 1, V: "withel", CA: 63}, {K: "decode", A: 6}, {K: "decodebad", A: 8}, {K: "decode"}, {K: "decode", A: 6}, {K: "delete", B: 2}, {K: "decode", A: 2}}, 2, "directed-decode-live")
 	// Init chained to the constructor, then Init / Set alternating on the live variable
 	emitVarApi(cf, st, "var", []op{{K: "vinit", A: 1}, {K: "sub", C: 0, V: "plain"}, {K: "vset", A: 2}, {K: "vinit", A: 3}, {K: "vset", A: 1}, {K: "vinit", A: 2}}, 1, "directed-init-live")
 	// every variant registered, then Init / ToggleValue / reset / inherited writes
